@@ -113,6 +113,9 @@ def gen_conv04(rng):
             c[3] = "100000"
         return c
     if r < 0.85:
+        if rng.random() < 0.08:
+            # F04a family: AnyConverter.to_url does not percent-encode its items
+            return ["a", *rng.choice([["a?b", "ok"], ["x#y"], ["%41", "a"], ["50%25"]])]
         return ["a", *rng.choice([["a", "b"], ["about", "help", "x.y"], ["foo,bar", "a-b"], ["é", "x y"], ["items"]])]
     return ["u"]
 
@@ -222,7 +225,7 @@ def read_built(cfg, a, url):
             return None
     else:
         pathq = url
-    path = pathq.split("?", 1)[0]
+    path = pathq.split("#", 1)[0].split("?", 1)[0]  # a client keeps the fragment, the query is not routed
     script = a["script"] if a["script"].endswith("/") else a["script"] + "/"
     if not path.startswith(script):
         return None
@@ -406,6 +409,17 @@ class BuildMatchStream(Stream):
             return f"build(match(url)) = {bytes.fromhex(u2[2:]).decode()!r} differs from url = {url!r}"
         return None
 
+    def finding_key(self, case, what):
+        # F04a: the value of an `any` converter contains '?', '#' or a percent escape, which
+        # AnyConverter.to_url emits unquoted
+        target = [r for r in case["rules"] if r["endpoint"] == case["endpoint"]]
+        for r in target:
+            for name, c in rule_vars(r):
+                v = case["values"].get(name) or r["defaults"].get(name)
+                if c[0] == "a" and v is not None and re.search(r"[?#]|%[0-9A-Fa-f]{2}", str(v[1])):
+                    return "F04a"
+        return None
+
     def nontrivial(self, case, real_out):
         return " ; M " in real_out
 
@@ -427,7 +441,7 @@ class BuildMatchStream(Stream):
 class ConvStream(Stream):
     name = "converters"
     corpus = [
-        {"conv": ["s", 1, None, None], "value": ["s", "a b;?#%é/"]},
+        {"conv": ["s", 1, None, None], "value": ["s", "a b;?#%é"]},
         {"conv": ["i", 3, True, None, None], "value": ["i", -5]},
         {"conv": ["i", 0, False, None, None], "value": ["i", 0]},
         {"conv": ["f", True, None, None], "value": ["f", "-0.5"]},
@@ -478,6 +492,11 @@ class ConvStream(Stream):
             return f"to_python(unquote(to_url(v))) = {v} differs from v = {want}"
         return None
 
+    def finding_key(self, case, what):
+        if case["conv"][0] == "a" and re.search(r"%[0-9A-Fa-f]{2}", str(case["value"][1])):
+            return "F04a"
+        return None
+
     def bucket(self, case, real_out):
         return case["conv"][0]
 
@@ -487,14 +506,24 @@ CHECK = Check(
     gen=["Routing", "RoutingSamples"],
     modules=["WzVerif.Props.C04"],
     streams=[BuildMatchStream(), ConvStream()],
-    assumptions=[],
-    quick_budget=4000,
-    thorough_budget=40000,
+    assumptions=[
+        "model scope: MapAdapter.build for the default converters incl. rule defaults, methods, subdomain / host_matching, script root, force_external, unknown values as query; MultiDict / list values, sort_parameters, url_scheme overrides and websocket rules are not modelled; Submount / Subdomain factories are exercised on the real side and compared with the expanded rules on the model side",
+        "urllib.parse.quote / quote_plus / urlencode / unquote are hand-modelled and validated by the streams (built URLs are compared character for character); the safe= literals are collected from the source by AST (quote_safe_sets_match_source)",
+        "a server's view of a built URL: scheme/host select the adapter (subdomain or host), the script root is stripped, the path is cut at '?' / '#' and percent-decoded (errors='replace')",
+        "floats are positional decimal text in Python's canonical spelling (repr): str(float) and float(text) are Python's and only correspondence-tested; int() / str(int) are modelled by Lean's decimal printer and the generated digit table (proved inverse)",
+        "converse law is checked as build(match(build(endpoint, values))) = build(endpoint, values): a URL that is not in built form ('/007' for <int>) matches but rebuilds canonically ('/7'), by design",
+        "negative min / max cannot be written in a rule string (werkzeug's converter-argument grammar has no sign), so signed converters are exercised with non-negative bounds",
+        "known finding F04a: AnyConverter.to_url does not percent-encode (negation witness toPython_toUrl_any_full_false)",
+        "match_build and build_match_fixpoint at map level are OPEN (see Props/C04.lean): the per-converter and quoting laws are proved, the map-level laws are validated by stream build-match only",
+    ],
+    trusted_extra=["CPython urllib.parse / int / float / uuid for the modelled primitives (validated by the streams, not verified)"],
+    quick_budget=8000,
+    thorough_budget=60000,
 )
 
 MANIFEST = {
-    "level_text": "",
-    "level_note": "",
-    "technique": "Lean 4 proof + model/code correspondence",
+    "level_text": "Machine-checked Lean 4 theorems about the model of URL building: percent-decoding undoes the builder's quoting for every text (unquote_quote: decide over all 256 bytes lifted to all strings by induction, UTF-8 round trip from Lean core), and to_python(unquote(to_url(v))) = v for every converter on its canonical domain - strings and paths (all text), ints incl. signed and zero-padded fixed_digits with min/max (decimal printing and reading proved inverse over the generated Unicode digit table), uuid, any, floats as canonical decimal text. The map-level build/match laws are validated by a differential stream over non-overlapping maps (model vs real code, character for character) with the property oracle on the real code.",
+    "level_note": "Trusted: Lean kernel; extract.py; harness; CPython urllib.parse/int/float/uuid (modelled, stream-validated). Partial: map-level match_build / build_match_fixpoint are OPEN (stream-validated only); float <-> text is Python's. Known finding F04a (any converter is not percent-encoded).",
+    "technique": "Lean 4 proof (decide +kernel over all bytes, induction over byte/digit lists, core UTF-8 and Nat.toDigits lemmas) + model/code correspondence",
     "design_ref": "DESIGN.md section 4, C04",
 }
